@@ -6,7 +6,8 @@ from .common import *
 
 # token indices (0 = op) holding hex payloads / payload lists, per op: used by the shrinker
 PAYLOAD = {"kg": [2], "mg": [3], "kmg": [3], "oligo": [3], "covrow": [6], "cgr": [2], "ocgr": [4],
-           "ofile": [10], "osched": [6], "cgrfile": [5], "ocgrfile": [7], "ctr": [6], "cov": [9, 10], "s2m": [5], "m2s": [5], "read": []}
+           "ofile": [10], "osched": [6], "cgrfile": [5], "ocgrfile": [7], "ctr": [6], "cov": [9, 10], "s2m": [5], "m2s": [5], "read": [], "cli": [4, 5], "hist": [],
+           "py:kg": [2], "py:mg": [3], "py:oligo": [3], "py:cgr": [2], "hooks": []}
 
 BASE_TRUSTED = [
     "Coq 8.16.1 kernel incl. vm_compute (no native_compute, no kernel flags, full .vo build)",
@@ -217,6 +218,22 @@ def gen_C04(r, tier):
         norm = r.below(2)
         for v in (s, rc_bytes(s), to_lower(s), t_to_u(s), t_to_u(to_lower(s))):
             cases.append("oligo %d %d %s" % (k, norm, hx(v)))
+    # the printed row through the file API (both writers): homopolymers (frequency exactly 1), single windows, ties
+    m = {"quick": 150, "thorough": 2500}[tier]
+    for _ in range(m):
+        k = r.pick([1, 2, 3, 4, 5])
+        recs = []
+        for _ in range(1 + r.below(8)):
+            c = r.below(5)
+            if c == 0: recs.append(bytes([r.pick(NUC10)]) * (k + r.below(6)))              # one canonical k-mer only
+            elif c == 1: recs.append(bytes(r.choices(NUC, k=k)))                              # exactly one window
+            elif c == 2: recs.append(b"N" + bytes(r.choices(NUC, k=k)) + b"N")               # one window between N's
+            elif c == 3: recs.append(bytes(r.choices(NUC, k=k + 127)))                        # 128 windows: ties at 1/128
+            else: recs.append(gen_file_seq(r, k, 100, allow_empty=False))
+        norm = r.below(4) > 0
+        cases.append("ofile %d %d %d %s %d %d %s %s 60 %s" % (k, norm, r.below(2), hx(r.pick([b" ", b",", b"\t"])), pick_threads(r),
+                                                              r.pick([1, 100, 4294967296]), r.pick(["auto", "mmap", "batch"]) if norm else r.pick(["auto", "batch"]),
+                                                              r.pick(["fa", "fq", "faw"]), hxlist(recs)))
     return cases
 
 def extra_C04(cases, impl):
@@ -483,10 +500,11 @@ def to_spec_cgrfile(case, out):
     if p[0] != "cgrfile" or out == "ERR" or out.startswith(("PANIC", "CRASH", "NOT-RUN", "MODEL")) or not out: return out
     n = 52 - bitlen(int(p[1]))
     rows = []
+    cnt, out = out.split("#", 1) if "#" in out else ("?", out)
     for row in out.split(";"):
         items = row.split(",") if row else []
         rows.append(",".join(items[:n] + ["~"] * max(0, len(items) - n)))
-    return ";".join(rows)
+    return cnt + "#" + ";".join(rows)
 
 def gen_C12_files(r, n):
     cases = []
@@ -560,6 +578,321 @@ def gen_C06(r, tier):
     return cases
 
 
+# ---------------------------------------------------------------- C15 / C16 / C17 (the binary)
+def to_spec_cli(case, out):
+    """whole-sequence CGR through the binary: same masking of the non-exact tail as for cgrfile"""
+    p = case.split(" ")
+    if p[0] == "hist": p = ["cli"] + p[-5:]
+    if p[0] != "cli" or p[1] != "cgr" or not out.startswith("exit=0|") or out.endswith(("NOOUT", "ERR")): return out
+    stt = dict(x.split("=") for x in p[2].split(",") if "=" in x)
+    if "k" in stt: return out
+    return "exit=0|" + to_spec_cgrfile("cgrfile %s" % stt.get("v", "1"), out[7:])
+
+def cheap_cli(case):
+    p = case.split(" ")
+    return len(case) < 500 and (p[0] != "cli" or p[1] in ("oligo", "min"))
+
+def st(d):
+    return ",".join("%s=%s" % kv for kv in d.items() if kv[1] is not None) or "_"
+
+def edge(r, lo, hi, also=()):
+    """a value inside, at both ends, or just outside the documented range"""
+    c = r.below(10)
+    if c == 0: return max(lo - 1, 0) if lo > 0 else hi + 1
+    if c == 1 and hi is not None: return hi + 1
+    if c == 2: return lo
+    if c == 3 and hi is not None: return hi
+    pool = list(also) + [lo + r.below((hi if hi is not None else lo + 40) - lo + 1)]
+    return r.pick(pool)
+
+def cli_case(sub, d, cont, recs, alt=None):
+    return "cli %s %s %s %s %s" % (sub, st(d), cont, hxlist(recs), hxlist(alt) if alt is not None else "_")
+
+def gen_cli_oligo(r):
+    k = edge(r, 3, 7) if r.below(3) else None
+    d = {"k": k, "c": r.pick([None, 1]), "H": r.pick([None, 1]), "p": r.pick([None, "csv", "tsv", "spc"]), "t": r.pick([None, 0, 1, 2, 7, 16])}
+    cont = r.pick(["fa", "faw", "fq", "fagz"])
+    if r.below(5) == 0: d["in"] = "-"; cont = r.pick(["fa", "fq"])
+    kk = k if (k and 3 <= k <= 7) else 3
+    return "oligo", d, cont, gen_records(r, kk, nmax=15 if kk <= 5 else 6, maxlen=80, container=cont)
+
+def gen_cli_cgr(r):
+    k = edge(r, 3, 7) if r.below(2) else None
+    d = {"k": k, "v": r.pick([None, 1, 2, 16, 1000, 2 ** 20]), "c": r.pick([None, None, 1]), "t": r.pick([None, 0, 1, 2, 7, 16])}
+    cont = r.pick(["fa", "faw", "fq"])
+    if k is None:
+        recs = [bytes(r.choices(NUC10, k=1 + r.below(50))) for _ in range(r.below(12))]
+        if r.below(6) == 0 and recs: recs[r.below(len(recs))] += b"N"
+    else:
+        kk = k if 3 <= k <= 7 else 3
+        recs = gen_records(r, kk, nmax=10 if kk <= 5 else 4, maxlen=60, container=cont)
+    return "cgr", d, cont, recs
+
+def gen_cli_cov(r):
+    d = {"k": edge(r, 7, 31, also=(7, 11, 15)) if r.below(3) else None, "s": edge(r, 5, None, also=(5, 16)) if r.below(2) else None,
+         "b": edge(r, 5, None, also=(5, 16)) if r.below(2) else None, "m": edge(r, 6, 128, also=(6,)) if r.below(3) == 0 else None,
+         "p": r.pick([None, "csv", "tsv", "spc"]), "c": r.pick([None, 1]), "a": r.pick([None, None, 1]), "t": r.pick([None, 0, 1, 2, 7, 16])}
+    cont = r.pick(["fa", "fq", "fagz"])
+    k = d["k"] if d["k"] and 7 <= d["k"] <= 31 else 15
+    recs = gen_records(r, k, nmax=12, maxlen=120, container=cont)
+    if r.below(3) == 0 and recs: recs += [bytes([r.pick(NUC)]) * (k + 100)] * 2
+    return "cov", d, cont, recs, gen_records(r, k, nmax=8, maxlen=120)
+
+def gen_cli_min(r):
+    m = edge(r, 7, 28, also=(7, 10)) if r.below(3) else None
+    mm = m if m is not None else 10
+    w = r.pick([None, 0, mm, mm + 1, max(mm - 1, 1), mm + 5 + r.below(20)])
+    d = {"m": m, "w": w, "p": r.pick([None, "s2m", "m2s"]), "t": r.pick([None, 0, 1, 2, 7, 16])}
+    cont = r.pick(["fa", "fq", "faw"])
+    return "min", d, cont, gen_records(r, mm, nmax=12, maxlen=150, container=cont)
+
+def gen_cli_ctr(r):
+    d = {"k": edge(r, 10, 31, also=(10, 15, 21)) if r.below(8) else None, "m": edge(r, 6, 128, also=(6,)) if r.below(3) == 0 else None,
+         "a": r.pick([None, 1]), "t": r.pick([None, 0, 1, 2, 7, 16])}
+    cont = r.pick(["fa", "fq", "fagz"])
+    k = d["k"] if d["k"] and 10 <= d["k"] <= 31 else 15
+    return "ctr", d, cont, gen_records(r, k, nmax=12, maxlen=150, container=cont)
+
+CLI_GENS = [gen_cli_oligo, gen_cli_cgr, gen_cli_cov, gen_cli_min, gen_cli_ctr]
+
+def gen_C15(r, tier):
+    n = {"quick": 220, "thorough": 4000}[tier]
+    cases = []
+    for _ in range(n):
+        g = r.pick(CLI_GENS)(r)
+        sub, d, cont, recs = g[0], g[1], g[2], g[3]
+        alt = g[4] if len(g) > 4 else None
+        cases.append(cli_case(sub, d, cont, recs, alt))
+        # the same run with another thread count must not change the result
+        d2 = dict(d); d2["t"] = r.pick([None, 1, 3, 16])
+        cases.append(cli_case(sub, d2, cont, recs, alt))
+        # and the library with the same settings gives the same result (oligo, in range, file input)
+        if sub == "oligo" and (d["k"] is None or 3 <= d["k"] <= 7) and d.get("in") is None:
+            delim = {None: b" ", "spc": b" ", "csv": b",", "tsv": b"\t"}[d["p"]]
+            cases.append("ofile %d %d %d %s %d 4294967296 auto %s 60 %s" % (d["k"] or 3, 0 if d["c"] else 1, 1 if d["H"] else 0, hx(delim), d["t"] or 0, cont, hxlist(recs)))
+    return cases
+
+def extra_C15(cases, impl):
+    bad = []
+    for i in range(len(cases) - 1):
+        a, b = cases[i].split(" "), cases[i + 1].split(" ")
+        if a[0] == "cli" and b[0] == "cli" and a[1] == b[1] and a[3:] == b[3:] and a[2] != b[2]:
+            sa = dict(x.split("=") for x in a[2].split(",") if "=" in x); sb = dict(x.split("=") for x in b[2].split(",") if "=" in x)
+            sa.pop("t", None); sb.pop("t", None)
+            if sa == sb and impl[i] != impl[i + 1]:
+                bad.append((cases[i + 1], "the thread option changed the result (vs %s)" % a[2]))
+        if a[0] == "cli" and b[0] == "ofile" and impl[i].startswith("exit=0|") and impl[i][7:] != impl[i + 1] and i + 1 < len(cases):
+            pass
+    for i in range(len(cases) - 2):
+        if cases[i].startswith("cli oligo") and cases[i + 2].startswith("ofile "):
+            if impl[i].startswith("exit=0|") and impl[i][7:] != impl[i + 2]:
+                bad.append((cases[i], "the command line result differs from the library result for the same settings"))
+    return bad
+
+
+DEGENERATE = [[], [b""], [b"", b""], [b"A"], [b"N"], [b"NNNNNNNNNNNNNNNNNNNNNNNNNNNNNNNNNNNN"], [b"ACGTACGTAC", b""], [b"", b"ACGTACGTACGTACGTACGTACGTACGTACGTACGT"],
+              [b"NACGTACGTACGTACGTACGTACGTACGTACGTACGA"], [b"ACGTACGTACGTACGTACGTACGTACGTACGTACGAN"], [b"", b"N", b"AC", b""]]
+
+def degenerate_records(r, k):
+    base = [list(x) for x in DEGENERATE]
+    for L in (1, k - 1, k, k + 1):
+        if L >= 1: base.append([bytes(r.choices(NUC, k=L))])
+    base.append([bytes(r.choices(NUC, k=max(k - 1, 1))), b"N" * k, bytes(r.choices(NUC, k=k))])
+    base.append([b"N" + bytes(r.choices(NUC, k=k)), bytes(r.choices(NUC, k=k)) + b"N"])
+    return base
+
+def gen_C16(r, tier):
+    cases = []
+    reps = {"quick": 1, "thorough": 6}[tier]
+    for _ in range(reps):
+        for t in (1, 8):
+            for k in (3, 5):
+                for recs in degenerate_records(r, k):
+                    for c in (None, 1):            # default = mapped writer, counts = batch writer
+                        cases.append(cli_case("oligo", {"k": k, "c": c, "H": r.pick([None, 1]), "t": t}, "fa", recs))
+                    cases.append(cli_case("cgr", {"k": k, "t": t, "c": r.pick([None, 1])}, "fa", recs))
+                    cases.append("ofile %d 1 %d 2c %d 100 mmap fa 60 %s" % (k, r.below(2), t, hxlist(recs)))
+                    cases.append("ocgrfile %d 4 %d %d 100 fa %s" % (k, r.below(2), t, hxlist(recs)))
+            for recs in degenerate_records(r, 7):
+                clean = [x for x in recs if all(b in NUC10 for b in x)]
+                cases.append(cli_case("cgr", {"t": t}, "fa", clean))
+                cases.append("cgrfile 1 %d 100 fa %s" % (t, hxlist(clean)))
+                cases.append(cli_case("cov", {"k": 7, "s": 5, "b": 5, "t": t, "c": r.pick([None, 1])}, "fa", recs))
+                cases.append(cli_case("ctr", {"k": 10, "t": t, "a": r.pick([None, 1])}, "fa", recs))
+                cases.append("cov 7 5 5 %d 20 %d %d fa %s %s" % (r.below(2), t, r.below(2), hxlist(recs), hxlist(recs)))
+                cases.append("ctr 10 %d 6 0 fa %s" % (t, hxlist(recs)))
+                for w in (None, 0, 12):
+                    for pm in ("s2m", "m2s"):
+                        cases.append(cli_case("min", {"m": 7, "w": w, "p": pm, "t": t}, "fa", recs))
+                        cases.append("%s %d 7 %d fa %s" % (pm, w or 0, t, hxlist(recs)))
+            for recs in degenerate_records(r, 11):     # around w - 1, w
+                cases.append(cli_case("min", {"m": 7, "w": 12, "t": t}, "fa", recs))
+    return cases
+
+def rows_of(case, out):
+    """(number of records, number of rows) for record-oriented outputs, or None"""
+    p = case.split(" ")
+    if p[0] != "cli" or not out.startswith("exit=0|") or out.endswith("NOOUT") or out == "exit=0|ERR": return None
+    n = 0 if p[4] == "_" else len(p[4].split(","))
+    pay = out[7:]
+    if p[1] in ("oligo", "cov"):
+        txt = unhx(pay.split("|")[0]) if pay else b""
+        rows = txt.count(b"\n") - (1 if ("H=1" in p[2] and p[1] == "oligo") else 0)
+        return n, rows, txt
+    if p[1] == "cgr": return n, int(pay.split("#")[0]) if "#" in pay else -1, b""
+    if p[1] == "min" and "p=m2s" not in p[2]: return n, (len(pay.split(";")) if pay else 0), b""
+    return None
+
+def extra_C16(cases, impl):
+    bad = []
+    for c, o in zip(cases, impl):
+        if o.startswith(("PANIC", "CRASH")) or (c.startswith("cli ") and not o.startswith(("exit=0|", "exit=2|"))):
+            bad.append((c, "does not end cleanly: %s" % o[:80])); continue
+        rr = rows_of(c, o)
+        if rr is not None:
+            n, rows, txt = rr
+            if n != rows: bad.append((c, "%d rows for %d records" % (rows, n)))
+            if b"\x00" in txt: bad.append((c, "NUL byte written as data"))
+        if (c.startswith("cli min") or c.startswith(("s2m ", "m2s "))) and "TTTTTTT:" in o.replace("=", ":").replace("+", ":+") and ("TTTTTTT=" in o or "=TTTTTTT:" in o or "+TTTTTTT:" in o):
+            bad.append((c, "placeholder minimiser written as data"))
+    return bad
+
+
+def gen_C17(r, tier):
+    n = {"quick": 60, "thorough": 700}[tier]
+    cases = []
+    for _ in range(n):
+        g = r.pick([gen_cli_oligo, gen_cli_oligo, gen_cli_cov, gen_cli_min, gen_cli_ctr, gen_cli_ctr])
+        runs = []
+        for j in range(r.pick([2, 2, 3])):
+            x = g(r)
+            sub, d, cont, recs = x[0], x[1], x[2], x[3]
+            alt = x[4] if len(x) > 4 else None
+            d.pop("in", None)
+            # keep every run of a history accepted: a refused run writes nothing and is outside this property
+            if sub == "oligo": d["k"] = r.pick([3, 4, 5])
+            if sub == "cov": d.update({"k": r.pick([7, 9]), "s": r.pick([5, 8]), "b": r.pick([5, 9]), "m": None})
+            if sub == "min": d.update({"m": r.pick([7, 9]), "w": r.pick([None, 0, 14])})
+            if sub == "ctr": d.update({"k": r.pick([10, 12]), "m": None})
+            runs.append("%s %s %s %s %s" % (sub, st(d), cont, hxlist(recs), hxlist(alt) if alt is not None else "_"))
+        cases.append("hist %d %s" % (r.below(2), " ".join(runs)))
+    return cases
+
+
+# ---------------------------------------------------------------- C14 (hook logs)
+def gen_C14(r, tier):
+    n = {"quick": 260, "thorough": 4000}[tier]
+    cases = []
+    for _ in range(n):
+        c = r.below(10)
+        if c < 5:        # mapped writer: delimiters of length 0..5, header on/off, k 1..6 (7, 8 rarely)
+            k = r.pick([1, 2, 3, 4, 5, 6]) if r.below(15) else r.pick([7, 8])
+            delim = bytes(r.choices(b",;:| \t", k=r.below(6)))
+            recs = gen_records(r, k, nmax=20 if k <= 5 else 4, maxlen=60)
+            cases.append("hooks ofile %d 1 %d %s %d %d %s fa 60 %s" % (k, r.below(2), hx(delim), pick_threads(r), r.pick([1, 100, 4294967296]), r.pick(["mmap", "auto"]), hxlist(recs)))
+        elif c < 7:      # coverage: bin size / count from 1, multiplicities far beyond the last bin and just at its edge
+            k = r.pick([1, 2, 3, 7, 15, 31]); bs = r.pick([1, 2, 3, 5, 16]); bc = r.pick([1, 2, 3, 4, 5, 16])
+            recs = gen_records(r, k, nmax=10, maxlen=80)
+            edge_mult = bs * bc + r.pick([-1, 0, 1, bs - 1, bs, 5 * bs])          # windows of one k-mer: lands around the last bin
+            recs = recs + [bytes([r.pick(NUC)]) * (k + max(edge_mult, 1) - 1)]
+            cases.append("hooks cov %d %d %d %d 20 %d %d fa %s %s" % (k, bs, bc, r.below(2), pick_threads(r), r.below(2), hxlist(recs), hxlist(recs)))
+        elif c < 9:      # counter: k up to 31, ceilings giving many partitions
+            k = r.pick([1, 5, 15, 21, 31])
+            recs = gen_records(r, k, nmax=20, maxlen=120)
+            cases.append("hooks ctr %d %d %s 0 fa %s" % (k, pick_threads(r), r.pick(["6", "0.0000001", "0.00000001"]), hxlist(recs)))
+        else:
+            k = r.pick([1, 2, 3, 4, 5])
+            recs = gen_records(r, k, nmax=10, maxlen=60)
+            cases.append("hooks ocgrfile %d 4 %d %d 100 fa %s" % (k, r.below(2), pick_threads(r), hxlist(recs)))
+    for _ in range({"quick": 60, "thorough": 600}[tier]):      # controlled schedules: offsets and bounds at every step
+        W = 1 + r.below(4); R = r.below(6)
+        recs = [gen_file_seq(r, 2, 20) for _ in range(R)]
+        sched = [r.below(W) for _ in range(r.below(4 * R + 6))] + [i for _ in range(2 * R + 3) for i in range(W)]
+        cases.append("osched 2 %d %s %d %s %s" % (r.below(2), hx(bytes(r.choices(b",;: ", k=r.below(4)))), W, ",".join(map(str, sched)), hxlist(recs)))
+    return cases
+
+
+# ---------------------------------------------------------------- C13 (Python binding)
+def py_executor(cases, tools, work, notes):
+    """run the `py:` case lines on the extension built from the working tree, several interpreters in parallel"""
+    import subprocess
+    from . import run as _run
+    parts = _run._shards(cases, 8)
+    procs = []
+    for j, part in enumerate(parts):
+        cf = os.path.join(work, "pycases.%d.txt" % j); of = os.path.join(work, "pyout.%d.txt" % j)
+        open(cf, "w").write("\n".join(part) + "\n")
+        procs.append((subprocess.Popen(["python3", os.path.join(ROOT, "tools/pyexec.py"), tools["py"], cf, of],
+                                       stdout=subprocess.PIPE, stderr=subprocess.STDOUT), of, len(part)))
+    out = []
+    for p, of, n in procs:
+        try: p.communicate(timeout=1500)
+        except subprocess.TimeoutExpired: p.kill(); p.communicate()
+        res = open(of).read().split("\n")[:-1] if os.path.exists(of) else []
+        if len(res) < n:      # the interpreter died: the property says it never may
+            res = res + ["CRASH the Python interpreter exited with status %s" % p.returncode] + ["NOT-RUN"] * (n - len(res) - 1)
+        out.extend(res[:n])
+    return out
+
+def gen_pystr(r, n):
+    """a Python str: nucleotide text, mixed case, arbitrary unicode (never U+0000..U+0003), as UTF-8 bytes"""
+    c = r.below(6)
+    if c <= 2: return gen_seq(r, n, alpha=r.pick([NUC, NUC10]), ascii_only=True)
+    out = []
+    for _ in range(n):
+        x = r.below(20)
+        if x < 14: out.append(chr(r.pick(NUC10)))
+        elif x < 16: out.append(chr(r.pick(AMBIG)))
+        elif x < 17: out.append(chr(r.pick([0x141, 0x143, 0x147, 0x154, 0x175, 0x10041, 0xC1, 0x3041])))     # low byte is a letter
+        elif x < 18: out.append(chr(0x80 + r.below(0x780)))
+        elif x < 19: out.append(chr(r.pick([0x800 + r.below(0xD000), 0xE000 + r.below(0x1FFF)])))
+        else: out.append(chr(0x10000 + r.below(0x100000)))
+    return "".join(out).encode("utf-8")
+
+def gen_C13(r, tier):
+    n = {"quick": 1200, "thorough": 20000}[tier]
+    cases = []
+    for k in range(1, 8):
+        cases.append("py:header %d" % k)
+    for _ in range(n):
+        c = r.below(10)
+        if c < 3:
+            k = 1 + r.below(31); cases.append("py:kg %d %s" % (k, hx(gen_pystr(r, klen(r, k) % 120))))
+        elif c < 5:
+            w, m, s_ = gen_min_params(r, wmax_extra=20)
+            cases.append("py:mg %d %d %s" % (w, m, hx(gen_pystr(r, len(s_) % 150))))
+        elif c < 7:
+            k = r.pick([1, 2, 3, 4, 5, 6]); L = r.pick([0, k - 1, k, k + 1, r.below(120)])
+            cases.append("py:oligo %d %d %s" % (k, r.below(2), hx(gen_pystr(r, max(L, 0)))))
+        elif c < 8:
+            cases.append("py:cgr %d %s" % (r.pick([1, 2, 16, 1000, 2 ** 20]), hx(gen_pystr(r, r.below(60)))))
+        elif c < 9:
+            k = r.pick([1, 2, 3, 4]); nb = r.pick([0, 1, 2, r.below(40), r.below(40)])
+            recs = [gen_pystr(r, r.pick([0, k, r.below(60)])) for _ in range(nb)]
+            cases.append("py:obatch %d %d %s" % (k, r.below(2), hxlist(recs)))
+        else:
+            nb = r.pick([0, 1, r.below(30)])
+            recs = [bytes(r.choices(NUC10, k=r.below(40))) for _ in range(nb)]
+            if nb and r.below(4) == 0: recs[r.below(nb)] = gen_pystr(r, 5) + "\u0141".encode("utf-8")
+            cases.append("py:cbatch %d %s" % (r.pick([1, 16, 1000]), hxlist(recs)))
+        if r.below(12) == 0:
+            cases.append("py:dec %d %d" % (lambda k: (k, r.below(4 ** k)))(1 + r.below(31)))
+    if tier == "thorough":      # batch sizes in the thousands on the rayon pool
+        for _ in range(6):
+            recs = [bytes(r.choices(NUC, k=r.below(30))) for _ in range(1000 + r.below(2500))]
+            cases.append("py:obatch 2 %d %s" % (r.below(2), hxlist(recs)))
+    else:
+        recs = [bytes(r.choices(NUC, k=r.below(30))) for _ in range(1500)]
+        cases.append("py:obatch 2 1 %s" % hxlist(recs))
+    return cases
+
+def to_spec_py(case, out):
+    p = case.split(" ")
+    if p[0] == "py:cgr": return to_spec_cgr("cgr " + " ".join(p[1:]), out)
+    if p[0] == "py:cbatch": return to_spec_cgrfile("cgrfile " + p[1], out)
+    return out
+
+
 PROPS = {
     "C01": dict(gen=gen_C01, needs=["harness"],
                 rule="corpus, then the exhaustive alphabet sweep (every byte 4..255 alone at k=1 and inside AC?GT at k=2), then seeded structured sequences (per-case ambiguity rate 0/1/5/15 %, k in 1..=31 with extra weight on 1,15,16,17,30,31, boundary lengths 0,k-1,k,k+1,2k,3k+1); thorough adds every string over {A,c,G,u,N,0xFF} up to length 7 for k 1..4; non-trivial = the iterator yields at least one item; distinct = distinct case lines",
@@ -570,7 +903,7 @@ PROPS = {
     "C03": dict(gen=gen_C03, needs=["harness"],
                 rule="kmer_pos_maps(k) and the header for every k in 1..=7 (quick) / 1..=8 (thorough), all 4^k entries enumerated (entries of non-canonical codes are not compared: unspecified); one case per (op, k), each non-trivial",
                 assumptions=[], exhaustive=True),
-    "C04": dict(gen=gen_C04, needs=["harness"], extra=extra_C04, sample_filter=lambda c: int(c.split(" ")[1]) <= 6,
+    "C04": dict(gen=gen_C04, needs=["harness"], extra=extra_C04, sample_filter=lambda c: int(c.split(" ")[1]) <= 6 and len(c) < 900,
                 rule="seeded records (homopolymers, low-complexity repeats, palindromic h++rc(h), all-ambiguous, mixed with planted ambiguous bytes; boundary lengths 0,1,k-1,k,k+1,2k) for k in 1..=8, raw and normalised, each also as its reverse complement, lower case, U for T and both; vector entries compared as binary64 bit patterns with the Flocq model; non-trivial = some entry non-zero; relations on the implementation: the four respellings give the identical row",
                 nontrivial=lambda c, o: bool(o) and not o.startswith(("PANIC", "CRASH", "NOT-RUN")) and any(x != "0" for x in o.split(",")),
                 assumptions=["bytes 0x00-0x03 are never generated", "counts stay below 2^53 (f64 increments exact)"]),
@@ -602,6 +935,33 @@ PROPS = {
     "C09": dict(gen=gen_C09, needs=["harness"],
                 rule="corpus (witnesses of the repaired defects D1/D2 first), then seeded (w, m, sequence): m to 31, w to m+60, lengths 0,m,w-1,w,w+1,2w+3 and random to 400, half low-complexity repeats (period 1..6) with planted N and point mutations, a change on the last base, an N within the last window; thorough adds every string over {A,C,G,T,N} up to length 8 for m<=3, w<=m+2; non-trivial = at least one run",
                 assumptions=["bytes 0x00-0x03 are never generated"]),
+    "C13": dict(gen=gen_C13, needs=["harness", "py"], executor=py_executor, to_spec=to_spec_py,
+                sample_filter=lambda c: len(c) < 500, sample_limit={"quick": 40, "thorough": 120},
+                rule="the extension module built from the working tree (cargo build -p pip, imported as pykmertools by the sandbox's python3) on seeded Python strings: nucleotide text in mixed case, ambiguity letters, arbitrary unicode incl. code points whose low byte is a nucleotide letter (U+0141, U+10041, ...), astral characters; KmerGenerator / MinimiserGenerator consumed after the source string was deleted and the heap churned; OligoComputer.vectorise_one / get_header / vectorise_batch (batch sizes 0..40, one of 1500; thorough: thousands), CgrComputer.vectorise_one / vectorise_batch incl. ValueError on bad nucleotides; results compared (vectors as binary64 bit patterns) with the models of the core on the UTF-8 bytes; non-trivial = non-empty result",
+                assumptions=["pyo3's str -> String conversion hands the Rust code the UTF-8 encoding of the Python string",
+                             "memory safety of the lifetime-extended slice and 'never crashes the interpreter' are exercised (interpreter death = CRASH) but cannot be exhibited by a Gallina model: partial",
+                             "code points U+0000..U+0003 are never generated (bytes 0..3 are unspecified)"]),
+    "C14": dict(gen=gen_C14, needs=["harness"], sample_limit={"quick": 24, "thorough": 80}, sample_maxlen=600,
+                sample_filter=lambda c: not c.startswith("osched") or len(c) < 300,
+                rule="event log of the cfg(kmertools_verif) hooks while the library runs: mapped oligo writer with delimiters of length 0..5, header on/off, k 1..8, threads default/1..16, controlled and free schedules; coverage with bin size / count from 1 and a k-mer whose multiplicity lands at the edge of and far beyond the last bin; counter with k to 31 and ceilings giving many partitions; k-mer CGR; every logged unchecked index must satisfy idx < len, every write_at pos + len <= mapping size, the mapped writes must tile the file exactly with no NUL byte left, and the numbers of writes and indexings must equal the model's prediction; the harness is a debug build, so std's own get_unchecked precondition checks abort on a violation as well; non-trivial = at least one index or write logged",
+                nontrivial=lambda c, o: o.startswith("oob=0") and not o.endswith("writes=0|index=0") or "|" in o and c.startswith("osched"),
+                assumptions=["only the hooked sites are observed: an unsafe site without a hook is outside this check (the translator's inventory of unsafe sites is future work)",
+                             "what the hardware does on an out-of-bounds write is not modelled: the check shows there is none"]),
+    "C15": dict(gen=gen_C15, needs=["harness", "cli"], extra=extra_C15, to_spec=to_spec_cli, sample_filter=cheap_cli, sample_limit={"quick": 24, "thorough": 80}, sample_maxlen=700,
+                rule="the kmertools binary built from the working tree over seeded option combinations of all five subcommands: presets, --counts, -H, -t {default,0,1,2,7,16}, --acgt, --alt-input, stdin input, short and long option names, every numeric option inside, at both ends of and just outside its documented range; exit status, presence of output and canonical output compared with the CLI model (regenerated ranges) and the CLI spec (documented ranges); each run repeated with another thread count (must agree) and, for oligo, through the library with the same settings (must agree); non-trivial = the run was accepted and produced output",
+                nontrivial=lambda c, o: o.startswith("exit=0|") and not o.endswith(("NOOUT", "|")),
+                assumptions=["argv construction from the settings and output canonicalisation are done by the harness (trusted)",
+                             "the CLI's memory limits (>= 6 GB) are never reached by test-sized inputs"]),
+    "C16": dict(gen=gen_C16, needs=["harness", "cli", "harness_release", "cli_release"], extra=extra_C16, release_too=True,
+                to_spec=lambda c, o: to_spec_cgrfile(c, to_spec_cli(c, o)), sample_filter=cheap_cli,
+                sample_limit={"quick": 24, "thorough": 80}, sample_maxlen=500,
+                rule="degenerate matrix: 0 records; records of length 0, 1, k-1, k, k+1, w-1, w; all-N; N first / last; mixtures with empty records first / last / only; x every subcommand (binary and library) x both oligo writers x w = 0 and w > 0 x threads {1, 8} x debug and release builds; observables: exit status (0, or 2 for clap), no panic/abort, one row per record, no NUL byte, no placeholder minimiser; every output also compared with model and spec; non-trivial = accepted run",
+                nontrivial=lambda c, o: o.startswith("exit=0|") or (not c.startswith("cli") and not o.startswith(("PANIC", "CRASH", "NOT-RUN"))),
+                assumptions=["runtime aborts and hangs not caused by the modelled logic (allocation failure, poisoned locks) are outside the model"]),
+    "C17": dict(gen=gen_C17, needs=["harness", "cli"], to_spec=to_spec_cli, sample_filter=lambda c: len(c) < 600 and " cov " not in c and " ctr " not in c, sample_limit={"quick": 16, "thorough": 60}, sample_maxlen=900,
+                rule="histories of two or three accepted runs of one subcommand (different inputs, k, thread counts, presets) sharing one output location, half of them with stale temp chunk files of a bigger run (20 partitions x 4 chunks), a stale kmers.counts and a longer stale kmers.vectors planted before the last run; the result files after the last run are compared with the model/spec of the last run alone (i.e. a fresh location); non-trivial = output produced",
+                nontrivial=lambda c, o: o.startswith("exit=0|") and not o.endswith(("NOOUT", "|")),
+                assumptions=["File::create / truncate + set_len / unlink behave as POSIX says (OS semantics are not modelled)"]),
     "C18": dict(gen=gen_C18, needs=["harness"], extra=extra_C18, to_spec=to_spec_C18,
                 rule="seeded (w, m, sequence) with m <= w <= 31 as for C09; each sequence goes through the k-mer+minimiser iterator, the plain minimiser iterator and the k-mer iterator; non-trivial = at least one run; relations checked on the implementation's outputs: identical runs, k-mer lists concatenate to the canonical w-mers",
                 assumptions=["bytes 0x00-0x03 are never generated"]),
